@@ -200,7 +200,7 @@ func reseqProps(r *reseq) []string {
 	if rel(r.pkg.PkgPath) == "pkg/obiiter" {
 		return []string{"C03", "C01"} // SortBatches restores the file order behind the parallel parsers of every reader
 	}
-	return []string{"C04", "C18", "C05"}
+	return []string{"C04", "C18", "C05", "C03"} // a writer that parks or drops a batch loses records end to end
 }
 
 var identRe = func(name string) *regexp.Regexp { return regexp.MustCompile(`\b` + regexp.QuoteMeta(name) + `\b`) }
